@@ -556,24 +556,6 @@ func genOp(rt *rapid.T, w *c14World, cfg c14Config) c14Op {
 
 // ---------------------------------------------------------------------------------------------
 
-func runHistory(cfg c14Config, objects map[string][]byte, ops []c14Op) (string, map[string]int, error) {
-	w, err := buildWorld(cfg, objects)
-	if err != nil {
-		return "", nil, err
-	}
-	classes := map[string]int{}
-	for i, op := range ops {
-		msg, cl := w.step(op)
-		if msg != "" {
-			return fmt.Sprintf("step %d %s: %s", i, op, msg), classes, nil
-		}
-		for _, c := range cl {
-			classes[c]++
-		}
-	}
-	return "", classes, nil
-}
-
 func TestVerifC14(t *testing.T) {
 	rec := kit.For(t, "C14")
 	rec.Check(t, func(rt *rapid.T) {
